@@ -89,6 +89,9 @@ func trouble(format string, args ...any) {
 // mode used to hunt data races in the harness itself; never used by MANIFEST commands).
 func raceBuild() bool { return os.Getenv("VERIF_RACE") == "1" }
 
+// overlayState describes the build overlay of this run (for the evidence file).
+var overlayState string
+
 func buildEngine(root, engine string) string {
 	out := filepath.Join(root, ".build", engine+".test")
 	os.MkdirAll(filepath.Dir(out), 0o755)
@@ -96,8 +99,10 @@ func buildEngine(root, engine string) string {
 	tags, extra := "verif", []string{}
 	if js, why := prepareOverlay(root); js != "" {
 		tags, extra = "verif verifruntime", []string{"-overlay", js}
+		overlayState = "active: seeded select order and map iteration (five runtime files patched at build time), automatic yield sites in copies of pkg/state, pkg/prompting, pkg/synchronization and pkg/filesystem/locking of the current tree"
 	} else {
 		fmt.Printf("note: engines built without the runtime overlay (%s)\n", why)
+		overlayState = "not active (" + why + ")"
 	}
 	args := append([]string{"test", "-c", "-tags", tags}, extra...)
 	if raceBuild() {
@@ -448,6 +453,8 @@ func main() {
 		"reported":                       reported,
 		"other_property_violations_seen": agg.OtherProps,
 		"other_property_examples":        agg.OtherExamples,
+		"build_overlay":                  overlayState,
+		"automatic_yield_sites":          autoYieldSites,
 		"troubles":                       troubles,
 	}
 	ev := evidence{PropertyID: prop, Tier: *tier, Seed: seed, Level: spec.Level, Coverage: cov, Assumptions: spec.Assumptions, WallS: wall, Violations: violations}
